@@ -104,6 +104,15 @@ def lean_stage(mod, tier, log):
                            ": theorems on generated code skipped, hand model + correspondence decide")
             else:
                 res["stog_tie"] = dict(tie="translator + correspondence", module=gen_mod, methods=need)
+            # the Float reading of the generated glue, compared with the real code next to the hand model (twin requests)
+            rc_g, out_g = sh(["lake", "build", "drvs"], cwd=LEAN_DIR)
+            if rc_g != 0:
+                try:
+                    os.remove(os.path.join(LEAN_DIR, ".lake", "build", "bin", "drvs"))
+                except OSError:
+                    pass
+                log.append("driver of the generated glue (drvs) does not build: generated-code correspondence skipped")
+            res["stog_tie"]["generated_code_driver"] = "built" if rc_g == 0 else "not built"
         # driver first (needed by the correspondence even when the proofs break)
         # only the drivers this property's correspondence uses (drv: generated code; drvm: hand models on generated code;
         # drvp: hand models independent of generated code), so that an unrelated module cannot break it
